@@ -67,8 +67,12 @@ class Interp:
         self.trace: List[str] = []  # lines of guards taken (for reports)
 
     # ---- entry -------------------------------------------------------------------------
-    def call(self, f: FuncInfo, args: Dict[str, Any], bound_cls: Optional[ClassVal] = None) -> Any:
-        env: Dict[str, Any] = {}
+    def call(self, f: FuncInfo, args: Dict[str, Any], bound_cls: Optional[ClassVal] = None,
+             closure: Optional[Dict[str, Any]] = None) -> Any:
+        """args may contain "*" -> list of extra positional values for a *vararg parameter"""
+        env: Dict[str, Any] = dict(closure or {})
+        args = dict(args)
+        star = args.pop("*", None)
         a = f.node.args  # type: ignore[attr-defined]
         params = [x.arg for x in a.posonlyargs + a.args + a.kwonlyargs]
         defaults = list(a.defaults)
@@ -88,6 +92,10 @@ class Interp:
                 env[p] = self.eval(dmap[p], {}, f)
             else:
                 raise Unmodelled(f"{f.qualname}: no value for parameter {p}")
+        if a.vararg is not None:
+            env[a.vararg.arg] = tuple(star or ())
+        elif star:
+            raise Unmodelled(f"{f.qualname}: positional varargs given but function has no *args")
         extra = set(args) - set(params)
         if extra:
             raise Unmodelled(f"{f.qualname}: unknown arguments {sorted(extra)}")
@@ -494,6 +502,10 @@ class Interp:
             if isinstance(base, str) and fn.attr in ("lower", "upper", "strip", "lstrip", "rstrip", "replace", "startswith",
                                                      "endswith", "split", "format", "join", "title", "capitalize"):
                 return getattr(base, fn.attr)(*args, **kwargs)
+            if isinstance(base, list) and fn.attr in ("append", "extend", "insert", "pop", "index", "count", "copy", "sort", "reverse"):
+                return getattr(base, fn.attr)(*args, **kwargs)
+            if isinstance(base, tuple) and fn.attr in ("index", "count"):
+                return getattr(base, fn.attr)(*args)
             if isinstance(base, dict):
                 if fn.attr == "get":
                     return base.get(args[0], args[1] if len(args) > 1 else None)
